@@ -166,7 +166,10 @@ func c01(c *Ctx) {
 		r.Und("C01.R2", "installer / jump generator", "", "anchors not found")
 		return
 	}
-	pt := p.NamedType("internal/patch", "patch")
+	pt := p.patchRoles().Patch
+	for _, prob := range p.patchRoles().Problems {
+		r.Und("C01.R3", "patch roles: "+prob, "", "cannot identify the patch package's fields by role: "+prob)
+	}
 	// ---- R2 embedded word = func value data word
 	// emitter: the call inside gen whose result is returned as the jump bytes
 	var emitCall *ssa.Call
@@ -199,7 +202,7 @@ func c01(c *Ctx) {
 					if cl, ok := a.V.(*ssa.Call); ok && calleeName(cl.Common()) == qual("internal/bytecode", "GetPtr") {
 						if _, fv, ok := fieldRef(resolveLocal(cl.Call.Args[0])); ok && fv != nil {
 							srcField = fv.Name()
-							if fv.Name() == "replacementValue" {
+							if fv == p.patchRoles().PReplVal {
 								okPtr = true
 							}
 						}
@@ -235,7 +238,7 @@ func c01(c *Ctx) {
 	} else {
 		okVal := resolveLocal(upd.Value) == ssa.Value(inst.Params[0])
 		_, kf, okK := fieldRef(resolveLocal(upd.Key))
-		r.Check(okVal && okK && kf != nil && kf.Name() == "originPtr", "C01.R3", "registration in "+shortName(inst), p.Pos(posOf(upd)), "patches[p.originPtr] = p",
+		r.Check(okVal && okK && kf != nil && kf == p.patchRoles().POrigin, "C01.R3", "registration in "+shortName(inst), p.Pos(posOf(upd)), "patches[p.originPtr] = p",
 			"the patch table does not map the patched address to the patch object that owns the replacement: the closure whose address is embedded in machine code is not kept alive (or is kept under the wrong key)")
 		okAll := true
 		for _, ret := range returnsOf(inst) {
@@ -250,7 +253,7 @@ func c01(c *Ctx) {
 	}
 	// the patch object references the replacement (fields set by every constructor literal)
 	if pt != nil {
-		rv := structField(pt, "replacementValue")
+		rv := p.patchRoles().PReplVal
 		nLit := 0
 		for _, f := range p.FuncsIn("internal/patch") {
 			eachInstr(f, func(i ssa.Instruction) {
@@ -276,7 +279,7 @@ func c01(c *Ctx) {
 	}
 	// ---- R4 patched address = function entry
 	if pt != nil {
-		op := structField(pt, "originPtr")
+		op := p.patchRoles().POrigin
 		for _, fs := range storesToField(p.FuncsIn("internal/patch"), func(fv *types.Var, _ ssa.Value) bool { return fv == op }) {
 			okSrc := allAtoms(origins(fs.Store.Val), func(a Atom) bool {
 				switch a.Kind {
@@ -302,9 +305,9 @@ func c01(c *Ctx) {
 					if st, ok := ref.(*ssa.Store); ok {
 						if fa, ok := st.Addr.(*ssa.FieldAddr); ok {
 							dst := fieldVar(fa.X.Type(), fa.Field)
-							want := map[string]string{"originPtr": "originValue", "replacementPtr": "replacementValue"}
-							if w, ok := want[dst.Name()]; ok {
-								r.Check(fv.Name() == w, "C01.R4", dst.Name()+" taken from "+fv.Name()+" in "+shortName(f), p.Pos(posOf(cs)), "", "the entry address of the wrong function value is recorded ("+dst.Name()+" ← "+fv.Name()+".Pointer())")
+							want := map[*types.Var]*types.Var{p.patchRoles().POrigin: p.patchRoles().POrigVal}
+							if w, ok := want[dst]; ok {
+								r.Check(fv == w, "C01.R4", dst.Name()+" taken from "+fv.Name()+" in "+shortName(f), p.Pos(posOf(cs)), "", "the entry address of the wrong function value is recorded ("+dst.Name()+" ← "+fv.Name()+".Pointer())")
 							}
 						}
 					}
